@@ -56,6 +56,31 @@ func NIntersect(a Set, bs ...Set) Set {
 }
 
 // Union returns every value that is in either input Set (or both).
+// unionBytes merges two byte arrays whose positions form one run and agree where they overlap.
+// Adding the bytes one at a time (Bytes.With) cannot do this: the first byte that is not adjacent
+// to the run built so far turns the whole value into a generic set of tuples.
+func unionBytes(a, b Bytes) (Set, bool) {
+	if a.offset > b.offset {
+		a, b = b, a
+	}
+	aEnd, bEnd := a.offset+len(a.b), b.offset+len(b.b)
+	if b.offset > aEnd {
+		return nil, false
+	}
+	for i := b.offset; i < aEnd && i < bEnd; i++ {
+		if a.b[i-a.offset] != b.b[i-b.offset] {
+			return nil, false
+		}
+	}
+	if bEnd <= aEnd {
+		return a, true
+	}
+	merged := make([]byte, 0, bEnd-a.offset)
+	merged = append(merged, a.b...)
+	merged = append(merged, b.b[aEnd-b.offset:]...)
+	return Bytes{b: merged, offset: a.offset}, true
+}
+
 func Union(a, b Set) Set {
 	if _, is := a.(EmptySet); is {
 		return b
@@ -92,6 +117,13 @@ func Union(a, b Set) Set {
 		m.Put(b.unionSetSubsetBucket(), b)
 		return newSetFromBuckets(m.Finish())
 	default:
+		if ab, ok := a.(Bytes); ok {
+			if bb, ok := b.(Bytes); ok {
+				if u, ok := unionBytes(ab, bb); ok {
+					return u
+				}
+			}
+		}
 		for e := b.Enumerator(); e.MoveNext(); {
 			a = a.With(e.Current())
 		}
